@@ -77,6 +77,9 @@ func c08_10(c *core.Ctx, p *core.Prog) {
 }
 
 func init() {
+	for _, prop := range []string{"C01", "C02", "C03"} {
+		register(prop, &core.Rule{ID: "RT.28", Title: "pcommon.Value typed accessors that wrap a pointer are called only under the matching Type() test (a value of another type must not crash the encoder)", Mod: core.ModRoot, Floor: 3, Run: c08_10, Canary: c08_10Canary})
+	}
 	register("C08", &core.Rule{ID: "C08.10", Title: "pcommon.Value typed accessors that wrap a pointer (Bytes, Map, Slice) are called only under the matching Type() test", Mod: core.ModRoot, Floor: 8, Run: c08_10, Canary: c08_10Canary})
 }
 
